@@ -26,7 +26,22 @@ func buildRich(g *hgen) rich {
 		ex = vRef(s3, r.PickInt(dNative, dNative, dAliasStr))
 	}
 	c2 := g.addCond("kw", r.Range(1, 6), ex)
-	c4 := g.addCond("kw4", r.Range(1, 6), vStr("four"))
+	var c4 int
+	if r.Bool(0.3) {
+		// an incomplete condition: Init() plus some (or none) of the three parts
+		g.tr.Objs = append(g.tr.Objs, ObjSpec{T: "IC"})
+		g.m.S = append(g.m.S, nil)
+		g.m.C = append(g.m.C, newMCond(ObjSpec{T: "IC"}, nil))
+		c4 = len(g.tr.Objs) - 1
+		if r.Bool(0.6) {
+			g.emit(Op{Obj: c4, M: "SetKeyword", Args: []Val{vStr("kw4")}}, true)
+		}
+		if r.Bool(0.5) {
+			g.emit(Op{Obj: c4, M: "SetOperator", Args: []Val{vOp(r.Range(1, 6))}}, true)
+		}
+	} else {
+		c4 = g.addCond("kw4", r.Range(1, 6), vStr("four"))
+	}
 	w.stacks = []int{s0, s1, s3}
 	w.conds = []int{c2, c4}
 	w.sink = g.addStack(g.kind(), 0)
